@@ -24,6 +24,12 @@ inductive Flag where
   | unset | t | f
   deriving DecidableEq, Repr, FromJson, ToJson, Inhabited
 
+/-- A fault scripted for one field: comparing the two values raises, or the field's eq key function raises
+    (only meaningful when the field has an eq key).  Faults are active in the FIRST round of a case only. -/
+inductive Fault where
+  | none | eqRaises | keyRaises
+  deriving DecidableEq, Repr, FromJson, ToJson, Inhabited
+
 structure Field where
   name : String
   cmp  : EqArg
@@ -42,6 +48,8 @@ structure Field where
   order : EqArg
   /-- outcome of `orderkey(x.f) == orderkey(y.f)`: what `==` would see if the order key were (wrongly) applied -/
   orderKeyed : Outcome
+  /-- what goes wrong with this field in the first round -/
+  fault : Fault
   deriving DecidableEq, Repr, FromJson, ToJson, Inhabited
 
 /-- What the right operand is, relative to the left operand `x : C`. -/
@@ -117,7 +125,8 @@ def Res.isTruthy : Res → Bool
 
 def Res.ofBool (b : Bool) : Res := if b then .T else .F
 
-structure Obs where
+/-- the four observables of one round, with the comparisons of field values each direct call performed -/
+structure Round where
   eqDirect : Res           -- C.__eq__(x, y)
   neDirect : Res           -- C.__ne__(x, y)
   eqOp     : Res           -- x == y
@@ -126,6 +135,16 @@ structure Obs where
   trace    : List String
   /-- the same for `C.__ne__(x, y)` -/
   neTrace  : List String
+  deriving DecidableEq, Repr, FromJson, ToJson, Inhabited
+
+/-- A case is observed twice on the SAME pair of operands (same operand order): first with the scripted
+    faults active, then again with every fault gone. -/
+structure Obs where
+  first : Round
+  again : Round
+  /-- what the comparisons left behind: entries in thread-local state of the attr modules, changes to the
+      operands themselves (never anything, raise or not) -/
+  residue : List String
   deriving DecidableEq, Repr, FromJson, ToJson, Inhabited
 
 /-! ### `_determine_attrib_eq_order`, equality half (default_eq = True) -/
@@ -171,6 +190,31 @@ def chain : List Field → Res × List String
       (r.1, tag f :: r.2)
     else (Res.ofOutcome (outcome f), [tag f])
 
+/-- the fault that can actually strike: a key function only exists on a keyed field -/
+def faultOf (f : Field) : Fault :=
+  match f.fault with
+  | .keyRaises => if hasKey f then .keyRaises else .none
+  | x => x
+
+/-- the `and` chain with faults: an exception ends the evaluation (the key function raises before the
+    values are compared; a raising `==` has been called, so it shows in the trace). -/
+def chainF : List Field → Res × List String
+  | [] => (.T, [])
+  | [f] =>
+    match faultOf f with
+    | .keyRaises => (.exc, [])
+    | .eqRaises => (.exc, [tag f])
+    | .none => (Res.ofOutcome (outcome f), [tag f])
+  | f :: g :: rest =>
+    match faultOf f with
+    | .keyRaises => (.exc, [])
+    | .eqRaises => (.exc, [tag f])
+    | .none =>
+      if (outcome f).isTruthy then
+        let r := chainF (g :: rest)
+        (r.1, tag f :: r.2)
+      else (Res.ofOutcome (outcome f), [tag f])
+
 def sameClass : Rhs → Bool
   | .same | .identical => true
   | _ => false
@@ -212,24 +256,27 @@ def rhsMro (c : Case) : List Layer :=
   | .super => c.ancestors
   | .foreign => [c.foreignLayer]
 
-/-- `C.__eq__(x, y)`.  (A generated method found further up than C itself only happens when attrs does not
-    generate equality for C — outside `wf` — and would compare that ancestor's fields only.) -/
-def eqMethod (c : Case) : Res × List String :=
+/-- `C.__eq__(x, y)`, for a given evaluator `ch` of the generated `and` chain.  (A generated method found
+    further up than C itself only happens when attrs does not generate equality for C — outside `wf` — and
+    would compare that ancestor's fields only.) -/
+def eqMethodW (ch : List Field → Res × List String) (c : Case) : Res × List String :=
   match lookupEq (mroC c) with
-  | .generated => if sameClass c.rhs then chain (c.fields.filter participates) else (.NI, [])
+  | .generated => if sameClass c.rhs then ch (c.fields.filter participates) else (.NI, [])
   | .user o => (Res.ofOutcome o, [])
   | .absent => (if c.rhs == .identical then .T else .NI, [])
 
-/-- what attrs' shared `__ne__` helper and `object.__ne__` both do with the result of the resolved `__eq__` -/
+/-- what attrs' shared `__ne__` helper and `object.__ne__` both do with the result of the resolved `__eq__`
+    (an exception simply propagates) -/
 def derive : Res → Res
   | .NI => .NI
+  | .exc => .exc
   | r => Res.ofBool (!r.isTruthy)
 
 /-- `C.__ne__(x, y)`: the helper calls `self.__eq__(other)`, i.e. what `type(x)` resolves. -/
-def neMethod (c : Case) : Res × List String :=
+def neMethodW (ch : List Field → Res × List String) (c : Case) : Res × List String :=
   match lookupNe (mroC c) with
   | .user o => (Res.ofOutcome o, [])
-  | _ => (derive (eqMethod c).1, (eqMethod c).2)
+  | _ => (derive (eqMethodW ch c).1, (eqMethodW ch c).2)
 
 /-- `type(y).__eq__(y, x)` for an operand y of another class: a hand-written method answers; a method
     generated for another class fails its class test; `object`'s declines (y is not x). -/
@@ -253,22 +300,34 @@ def dispatch (subFirst : Bool) (l r dflt : Res) : Res :=
   | .NI => (match b with | .NI => dflt | v => v)
   | v => v
 
-def eqOp (c : Case) : Res :=
+def eqOpW (ch : List Field → Res × List String) (c : Case) : Res :=
   if sameClass c.rhs then
-    match (eqMethod c).1 with
+    match (eqMethodW ch c).1 with
     | .NI => Res.ofBool (c.rhs == .identical)
     | r => r
-  else dispatch (c.rhs == .sub) (eqMethod c).1 (reflEq c) .F
+  else dispatch (c.rhs == .sub) (eqMethodW ch c).1 (reflEq c) .F
 
-def neOp (c : Case) : Res :=
+def neOpW (ch : List Field → Res × List String) (c : Case) : Res :=
   if sameClass c.rhs then
-    match (neMethod c).1 with
+    match (neMethodW ch c).1 with
     | .NI => Res.ofBool (!(c.rhs == .identical))
     | r => r
-  else dispatch (c.rhs == .sub) (neMethod c).1 (reflNe c) .T
+  else dispatch (c.rhs == .sub) (neMethodW ch c).1 (reflNe c) .T
 
-def model (c : Case) : Obs :=
-  { eqDirect := (eqMethod c).1, neDirect := (neMethod c).1, eqOp := eqOp c, neOp := neOp c,
-    trace := (eqMethod c).2, neTrace := (neMethod c).2 }
+def roundW (ch : List Field → Res × List String) (c : Case) : Round :=
+  { eqDirect := (eqMethodW ch c).1, neDirect := (neMethodW ch c).1, eqOp := eqOpW ch c, neOp := neOpW ch c,
+    trace := (eqMethodW ch c).2, neTrace := (neMethodW ch c).2 }
+
+/-! the fault-free round (what every later comparison of the pair must give) … -/
+def eqMethod (c : Case) := eqMethodW chain c
+def neMethod (c : Case) := neMethodW chain c
+def eqOp (c : Case) := eqOpW chain c
+def neOp (c : Case) := neOpW chain c
+def round (c : Case) : Round := roundW chain c
+/-! … and the round with the scripted faults active -/
+def roundF (c : Case) : Round := roundW chainF c
+
+/-- both rounds; generated comparisons keep no state: nothing is left behind -/
+def model (c : Case) : Obs := { first := roundF c, again := round c, residue := [] }
 
 end Attrs.C03
